@@ -49,12 +49,14 @@ def _work(job):
         fs = z3.parse_smt2_string(smt)
         fs = list(fs)
         hyps, goal = [], None
+        def _is_marker(e):
+            return z3.is_const(e) and e.decl().name() == "__goal__"
         for f in fs:
-            if z3.is_eq(f) and z3.is_const(f.children()[0]) and f.children()[0].decl().name() == "__goal__":
-                goal = f.children()[1]
-            elif z3.is_const(f) and f.decl().name() == "__goal__":
+            if (z3.is_eq(f) or (z3.is_app(f) and f.decl().kind() == z3.Z3_OP_IFF)) and len(f.children()) == 2 and (_is_marker(f.children()[0]) or _is_marker(f.children()[1])):
+                goal = f.children()[1] if _is_marker(f.children()[0]) else f.children()[0]
+            elif _is_marker(f):
                 goal = z3.BoolVal(True)
-            elif z3.is_not(f) and z3.is_const(f.children()[0]) and f.children()[0].decl().name() == "__goal__":
+            elif z3.is_not(f) and _is_marker(f.children()[0]):
                 goal = z3.BoolVal(False)
             else:
                 hyps.append(f)
